@@ -368,9 +368,9 @@ pub fn run(tier: Tier, replay: Option<String>) -> i32 {
     ck.cov("ipv6_hosts_printed", st.ipv6_printed.load(Ordering::Relaxed));
     ck.cov("exhaustive", true);
     ck.cov("traces_validated_against_impl", ev);
-    ck.sample(json!({"input": "tcp://[::1]:9", "reference": format!("{:?}", reference("tcp://[::1]:9")), "library": format!("{:?}", "tcp://[::1]:9".parse::<Endpoint>())}));
-    ck.sample(json!({"input": "tcp://a:٣", "reference": format!("{:?}", reference("tcp://a:٣")), "library": format!("{:?}", "tcp://a:٣".parse::<Endpoint>().map_err(|e| e.to_string()))}));
-    ck.sample(json!({"input": "ipc://\n", "reference": format!("{:?}", reference("ipc://\n")), "library": format!("{:?}", "ipc://\n".parse::<Endpoint>().map_err(|e| e.to_string()))}));
+    ck.sample(json!({"input": "tcp://[::1]:9", "reference": format!("{:?}", reference("tcp://[::1]:9")), "library": format!("{:?}", world::guarded(|| "tcp://[::1]:9".parse::<Endpoint>()))}));
+    ck.sample(json!({"input": "tcp://a:٣", "reference": format!("{:?}", reference("tcp://a:٣")), "library": format!("{:?}", world::guarded(|| "tcp://a:٣".parse::<Endpoint>().map_err(|e| e.to_string())))}));
+    ck.sample(json!({"input": "ipc://\n", "reference": format!("{:?}", reference("ipc://\n")), "library": format!("{:?}", world::guarded(|| "ipc://\n".parse::<Endpoint>().map_err(|e| e.to_string())))}));
     ck.assume("std's Ipv4Addr/Ipv6Addr parsers define what an address literal is");
     ck.assume("strings outside the alphabet / longer than the bound are not covered");
     ck.conclude()
